@@ -20,7 +20,7 @@ RULE = ("full matrix {given on the command line or not} x {env unbound, unset, s
 
 CONTENT = [b"plain", b"--a=b", b"-5", b"-", b"--", b"---", b"-=", b"a=b", b"=", b"x;y", b";", b"a;", b";;a",
            b"a;;b", b" ", b" x ", b"\xc3\xa4\xff", b"E" * 4096, b"--opt", b"-o", b"--no-tog", b"a\nb",
-           b"-v;--w;x", b"0", b"1", b"a,b", b"x;y,z", b"a:b", b"a b;c d", b"|"] + TRUTHY + FALSY
+           b"-v;--w;x", b"0", b"1", b"a,b", b"x;y,z", b"a:b", b"a b;c d", b"|", b"dflt", b"d1;d2", b"d1", b"3"] + TRUTHY + FALSY
 ENVN = optgen.ENVP + b"X"
 
 
